@@ -1054,10 +1054,7 @@ func main() {
 	o := hx.Parse()
 	log.SetLogger(nopLogger{})
 	// the loader writes every regular file of every layer below os.TempDir(): use a memory file system when there is one
-	base := ""
-	if st, err := os.Stat("/dev/shm"); err == nil && st.IsDir() {
-		base = "/dev/shm"
-	}
+	base := hx.ScratchBase() // /dev/shm only when it is roomy, see hx/scratch.go
 	tmp, err := os.MkdirTemp(base, "c04gen-*")
 	if err != nil {
 		tmp, err = os.MkdirTemp("", "c04gen-*")
